@@ -183,7 +183,13 @@ func doPackage(repo, dir, out string, rules []*rule, overlay map[string]string) 
 			continue
 		}
 
-		if len(edits) > 0 {
+		needImport := len(edits) > 0
+		for _, r := range rules {
+			if r.kind == "textsub" && strings.Contains(r.repl, "verifsim.") && r.re.Match(src) {
+				needImport = true
+			}
+		}
+		if needImport {
 			// Import on the package clause's line keeps line numbers stable.
 			pkgEnd := fset.Position(f.Name.End()).Offset
 			edits = append(edits, edit{
